@@ -366,6 +366,50 @@ func c12Gen(g *Gen) {
 		append(fld(1, 1, nil), 0), // VOID: unknown data type
 		append(fld(0x7f, 1, nil), 0),
 	}
+	// unknown CONTAINER fields (the model runs the full Binary.Skip): list<string>, set<i64> (fast path),
+	// map<i32,string>, nested struct, map<string,list<i16>>, nesting beyond the depth limit, negative
+	// counts, an unknown element type, each followed by the known fields
+	be32 := func(n int32) []byte { return binary.BigEndian.AppendUint32(nil, uint32(n)) }
+	cat := func(bs ...[]byte) []byte {
+		var o []byte
+		for _, b := range bs {
+			o = append(o, b...)
+		}
+		return o
+	}
+	known := cat(fld(11, 1, str("after a container")), fld(8, 2, be32(42)), []byte{0})
+	deep := func(n int) []byte { // n nested lists around one byte
+		var o []byte
+		for i := 0; i < n; i++ {
+			o = append(o, 15)
+			o = append(o, be32(1)...)
+		}
+		o = append(o, 3)
+		o = append(o, be32(1)...)
+		return append(o, 7)
+	}
+	exPayloads = append(exPayloads,
+		cat(fld(15, 5, cat([]byte{11}, be32(2), str("a"), str("bc"))), known),
+		cat(fld(14, 6, cat([]byte{10}, be32(3), make([]byte, 24))), known),
+		cat(fld(13, 7, cat([]byte{8, 11}, be32(2), be32(1), str("x"), be32(2), str("yz"))), known),
+		cat(fld(12, 8, cat(fld(8, 1, be32(5)), fld(12, 2, cat(fld(2, 1, []byte{1}), []byte{0})), []byte{0})), known),
+		cat(fld(13, 9, cat([]byte{11, 15}, be32(1), str("k"), []byte{6}, be32(2), []byte{0, 1, 0, 2})), known),
+		cat(fld(15, 10, deep(10)), known),
+		cat(fld(15, 10, deep(62)), known),
+		cat(fld(15, 10, deep(63)), known),
+		cat(fld(15, 10, deep(64)), known),
+		cat(fld(15, 10, deep(70)), known),
+		cat(fld(15, 11, cat([]byte{11}, be32(-1))), known),
+		cat(fld(13, 11, cat([]byte{8, 8}, be32(-2))), known),
+		cat(fld(14, 11, cat([]byte{8}, be32(0x7fffffff))), known),
+		cat(fld(15, 12, cat([]byte{1}, be32(1))), known),
+		cat(fld(13, 12, cat([]byte{11, 0x55}, be32(1), str("k"))), known),
+		cat(known[:len(known)-1], fld(15, 5, cat([]byte{12}, be32(2), []byte{0}, fld(3, 1, []byte{9}), []byte{0})), []byte{0}),
+	)
+	for k := 0; k < 40; k++ { // random well-formed unknown values of every type, then the known fields
+		t := []byte{2, 3, 4, 6, 8, 10, 11, 12, 13, 14, 15}[g.R.Intn(11)]
+		exPayloads = append(exPayloads, cat(fld(t, int16(20+k), c12RandVal(g, t, 3)), known))
+	}
 	for _, pb := range exPayloads {
 		for _, ty := range []int64{3, 1} {
 			m2("marshal/ex-payload", Str("M"), ty, 9, 2, Ls(Bs(pb)), 0)
@@ -397,6 +441,53 @@ func c12Gen(g *Gen) {
 		}
 	}
 	g.R.Shuffle(len(g.cases), func(i, j int) { g.cases[i], g.cases[j] = g.cases[j], g.cases[i] })
+}
+
+// a random well-formed Thrift value of type t (nesting at most d)
+func c12RandVal(g *Gen, t byte, d int) []byte {
+	be32 := func(n int) []byte { return binary.BigEndian.AppendUint32(nil, uint32(n)) }
+	pick := func() byte {
+		if d <= 0 {
+			return []byte{2, 3, 4, 6, 8, 10, 11}[g.R.Intn(7)]
+		}
+		return []byte{2, 3, 4, 6, 8, 10, 11, 12, 13, 14, 15}[g.R.Intn(11)]
+	}
+	switch t {
+	case 2, 3:
+		return []byte{byte(g.R.Intn(256))}
+	case 6:
+		return Pat(g.R.Intn(99), 2)
+	case 8:
+		return Pat(g.R.Intn(99), 4)
+	case 4, 10:
+		return Pat(g.R.Intn(99), 8)
+	case 11:
+		n := g.R.Intn(9)
+		return append(be32(n), Pat(g.R.Intn(99), n)...)
+	case 12:
+		var o []byte
+		for i, n := 0, g.R.Intn(4); i < n; i++ {
+			ft := pick()
+			o = append(o, ft, 0, byte(i+1))
+			o = append(o, c12RandVal(g, ft, d-1)...)
+		}
+		return append(o, 0)
+	case 13:
+		kt, vt, n := pick(), pick(), g.R.Intn(4)
+		o := append([]byte{kt, vt}, be32(n)...)
+		for i := 0; i < n; i++ {
+			o = append(o, c12RandVal(g, kt, d-1)...)
+			o = append(o, c12RandVal(g, vt, d-1)...)
+		}
+		return o
+	default: // 14, 15
+		et, n := pick(), g.R.Intn(4)
+		o := append([]byte{et}, be32(n)...)
+		for i := 0; i < n; i++ {
+			o = append(o, c12RandVal(g, et, d-1)...)
+		}
+		return o
+	}
 }
 
 func init() {
